@@ -281,6 +281,9 @@ func GenC13(seed uint64, tier string) *Config {
 		maxW = 64
 	}
 	c := &Config{Prop: "C13", Version: 1 + r.IntN(2), Workers: genWorkers(r, maxW)}
+	if tier != "thorough" && r.IntN(25) == 0 {
+		c.Workers = pick(r, 17, 32, 33, 48, 63, 64) // a few large worker counts in the quick tier as well
+	}
 	data := genData(r)
 	c.DataHex = hex.EncodeToString(data)
 	L := len(data) + 8
